@@ -158,19 +158,24 @@ for line in sys.stdin:
         out.append('ERR')
 print(json.dumps(out))
 '''
-    sub = cases[: (10 if ctx.tier == 'quick' else 100)]
+    sub = cases[: (25 if ctx.tier == 'quick' else 150)]
     if sub:
-        payload = '\n'.join(json.dumps({'s': c['s'], 'kw': kw, 'target': c['target'], 'start': c.get('start')}) for c, kw, _ in sub) + '\n'
-        env = dict(os.environ, PBR_VERSION='0', PYTHONHASHSEED='12345')
-        p = subprocess.run([sys.executable, '-W', 'ignore', '-c', script, lib.REPO, os.path.join(lib.VERIF, 'harness')],
-                           input=payload, capture_output=True, text=True, env=env, timeout=900)
-        if p.returncode != 0:
-            raise RuntimeError('sampler subprocess failed: ' + p.stderr[-300:])
-        res = json.loads(p.stdout.strip().split('\n')[-1])
-        for (c, kw, first), r in zip(sub, res):
-            ctx.count('history-process', lib.stable_hash(r))
-            if r != first:
-                ctx.fail(c, 'the same seed gives a different molecule in a fresh process')
+        # fresh processes: every case alone in the process's history order, under several string-hash seeds; the cases in
+        # REVERSED order in one of them (what an earlier sampler of the process left behind must not matter)
+        for hs, rev in (('12345', False), ('1', False), ('777', True)):
+            order = list(reversed(sub)) if rev else list(sub)
+            payload = '\n'.join(json.dumps({'s': c['s'], 'kw': kw, 'target': c['target'], 'start': c.get('start')}) for c, kw, _ in order) + '\n'
+            env = dict(os.environ, PBR_VERSION='0', PYTHONHASHSEED=hs)
+            p = subprocess.run([sys.executable, '-W', 'ignore', '-c', script, lib.REPO, os.path.join(lib.VERIF, 'harness')],
+                               input=payload, capture_output=True, text=True, env=env, timeout=900)
+            if p.returncode != 0:
+                raise RuntimeError('sampler subprocess failed: ' + p.stderr[-300:])
+            res = json.loads(p.stdout.strip().split('\n')[-1])
+            for (c, kw, first), r in zip(order, res):
+                ctx.count('history-process', lib.stable_hash([r, hs]))
+                if r != first:
+                    ctx.fail(c, f'the same seed gives a different molecule in a fresh process (PYTHONHASHSEED={hs}'
+                                f'{", samplers constructed in another order" if rev else ""})')
 
 
 def run(ctx):
